@@ -144,6 +144,8 @@ def step(j):
             cls = 'tune2fs-unaware-of-orphan-file'
         elif codes and codes <= {0x060002} and (ia.incompat & 0x8000):
             cls = 'e2fsck-skips-quota-accounting-of-inline-data-symlinks'
+        elif codes and codes <= {0x060002} and (ia.incompat & 0x400) and (ia.ro & 0x100):
+            cls = 'quota-usage-of-ea-value-inodes-differs-between-tune2fs-and-e2fsck'
         bad.append(('[%s] ' % cls if cls else '') + 'e2fsck -fn exits %s afterwards (problem codes %s): %s' % (rc2, sorted('0x%06x' % c for c in codes), out2[-300:]))
     else:
         v = xcheck(ia)
@@ -184,6 +186,19 @@ def main(tier, only=None):
                 if 'legacyq' not in bases: bases = bases + ['legacyq']
             else: log('C11: runtime base legacyq not usable')
         bases = [b for b in bases if b != 'legacyq' or 'legacyq' in fsweep._cache]
+    # runtime base: ea_inode filesystem with inodes that own two and three attributes stored in EA inodes (entry hashes depend on the checksum seed)
+    if not only or 'eainode2' in only:
+        DBG = tool('debugfs'); sc = scratch()
+        tg = os.path.join(sc, 'eainode2.img'); open(tg, 'wb').write(fsweep.base_data('eainode'))
+        sp = os.path.join(sc, 'eainode2.dbg')
+        open(sp, 'w').write('\n'.join(['ea_set /f12 user.h1 %s' % ('1' * 1500), 'ea_set /f12 user.h2 %s' % ('2' * 2100), 'ea_set /f12 user.h3 %s' % ('3' * 1300),
+                                       'ea_set /d1 user.g1 %s' % ('g' * 1400), 'ea_set /d1 user.g2 %s' % ('G' * 1600), 'ea_set /d1 user.small sm']) + '\n')
+        run([DBG, '-w', '-f', sp, tg], timeout=60)
+        if run([E2FSCK, '-fn', tg], timeout=60)[0] == 0:
+            fsweep._cache['eainode2'] = open(tg, 'rb').read()
+            if 'eainode2' not in bases: bases = bases + ['eainode2']
+        else: log('C11: runtime base eainode2 not usable')
+        bases = [b for b in bases if b != 'eainode2' or 'eainode2' in fsweep._cache]
     depth = 2 if quick else 3
     seen = {}; trans = 0; outcomes = {}; maxd = 0; frontier_left = 0
     samples = []
@@ -220,7 +235,7 @@ def main(tier, only=None):
     # off, a UUID changed meanwhile), so sequences of four (thorough five) of them are explored from two bases
     FOCUS = ['csum_seed on', 'csum_seed off', 'uuid set', 'uuid clear', 'csum off', 'csum on']
     fdepth = 4 if quick else 5
-    for b in ([x for x in ('ext4csum', 'deepext') if x in bases] if not only else []):
+    for b in ([x for x in ('ext4csum', 'deepext', 'eainode2') if x in bases] if not only else []):
         if ck.expired(): ck.add(exhaustive=False); break
         d0 = fsweep.base_data(b); k0 = state_key(d0)
         with open(os.path.join(STATES, k0), 'wb') as f: f.write(zlib.compress(d0, 1))
